@@ -99,6 +99,27 @@ class AppB(Component):
         raise RuntimeError('boom')
 
 
+class CallerB(Component):
+    """the application on the server side that sends events to a connected peer through the Server API"""
+
+    channel = 'callerb'
+
+    def init(self, srv, sock):
+        self.srv, self.sock = srv, sock
+
+    @handler('go')
+    def _go(self, ev, mode):
+        if mode in ('call', 'attr'):
+            return self.srv.send(ev, self.sock)               # the waiting handler: returns the generator
+        if mode == 'api':
+            return self.srv.send(ev, self.sock, no_result=True)
+        if mode == 'send_to':
+            self.srv.send_to(ev, [self.sock])
+        elif mode == 'send_all':
+            self.srv.send_all(ev)
+        return None
+
+
 def snapshot(e):
     extra = {k: v for k, v in e.__dict__.items() if k not in EVENT_DIR and k not in RUNTIME_ATTRS}
     return {'name': e.name, 'args': list(e.args), 'kwargs': dict(e.kwargs), 'channels': list(e.channels),
@@ -346,6 +367,8 @@ class C19(Prop):
             'Protocol) in two managers, joined by fake transports; the harness moves the written bytes in reads of '
             'generated sizes (single cuts at every offset of a packet in the thorough tier, byte-at-a-time, > 4 KiB '
             'payloads), interleaves sends of several events with partial deliveries, applies firewall predicates, and '
+            'mixes sends with and without result on one connection (node_without_result set; Server.send(no_result=True), '
+            'send_to, send_all with the Server side as caller) with the replies in separate reads / one read / cut, '
             'injects hostile packets from a grammar (meta keys, wrong types, missing keys, truncated / garbage / oversized '
             'JSON, forged value packets); load_event / load_value / dump_event->load_event also directly. '
             'non-trivial = a proto case with a cut inside a packet or a hostile packet or >= 2 events, or a load case '
@@ -359,7 +382,7 @@ class C19(Prop):
                    'parses, packet + partial delimiter does not parse',
                    'handler raising on the callee is open finding C19-remote-error-lost',
                    'not covered: invalid UTF-8, floats, recursion-depth errors of json, meta given as non-empty array, '
-                   'calls in the direction callee -> caller, several peers on one server']
+                   'both parties sending calls at the same time on one connection, several peers on one server']
 
     def __init__(self):
         self.stats = {}
@@ -400,7 +423,52 @@ class C19(Prop):
         self.stats = {'distribution': st}
         return cases
 
+    def gen_mixed(self, rng, st):
+        """sends with and without result mixed on one connection; replies in separate reads / one read / cut"""
+        st['proto'] += 1
+        st['mixed'] = st.get('mixed', 0) + 1
+        s2c = rng.random() < 0.7
+        modes = ['call', 'attr', 'api', 'send_to', 'send_all'] if s2c else ['call', 'attr']
+        nev = rng.randint(2, 4)
+        events = []
+        for i in range(nev):
+            sp = gen_event(rng, i)
+            sp['name'] = rng.choice(ECHO)
+            sp['mode'] = rng.choice(modes) if rng.random() < 0.6 else 'call'
+            events.append(sp)
+        if all(e['mode'] == 'call' for e in events):
+            events[rng.randrange(nev - 1)]['mode'] = rng.choice(modes[1:])
+        if events[-1]['mode'] != 'call' and rng.random() < 0.8:
+            events[-1]['mode'] = 'call'         # a waiting call after a send without result
+        fws = fwr = None
+        if rng.random() < 0.2:
+            fws = [rng.sample(['e1', 'e2'], 1), []]
+        if rng.random() < 0.2:
+            fwr = [rng.sample(['e1', 'e2'], 1), []]
+        ops = []
+        style = rng.random()
+        for i in range(nev):
+            ops.append(['send', i])
+            if style < 0.25:                    # strictly one after the other
+                ops += [['ab', 0], ['bap']]
+            elif rng.random() < 0.3:
+                ops.append(rng.choice([['abp'], ['ab', rng.choice(CUTS)], ['bap'], ['ba', rng.choice(CUTS)]]))
+        how = rng.random()
+        ops.append(['ab', 0])
+        if how < 0.45:                          # every reply in its own read
+            ops += [['bap']] * (nev + 1)
+        elif how < 0.7:                         # all replies in one read
+            ops += [['ba', 0]]
+        else:                                   # cut somewhere
+            ops += [['ba', rng.choice([60, 80, 90, 100, 110, 120, 130, 150, 180, 220])], ['bap'], ['ba', rng.choice(CUTS)]]
+        ops += FLUSH
+        events.append(dict(PROBE))
+        ops += [['send', len(events) - 1]] + FLUSH
+        return {'k': 'proto', 'dir': 's2c' if s2c else 'c2s', 'events': events, 'fws': fws, 'fwr': fwr, 'ops': ops}
+
     def gen_proto(self, rng, st, tier='quick'):
+        if rng.random() < 0.3:
+            return self.gen_mixed(rng, st)
         st['proto'] += 1
         r = rng.random()
         big = r < 0.08 and tier == 'thorough'      # quick tier: the > 4 KiB cases come from corpus/C19/big.json
@@ -444,7 +512,12 @@ class C19(Prop):
         else:
             st['cut1'] += 1
         ops += FLUSH
-        # liveness probe: one more honest event after everything else
+        # liveness probe: one more honest event after everything else.  Injected bytes may leave an unterminated
+        # remainder in a buffer (e.g. garbage ending in '~' shifts the delimiter: '~' + '~~~' leaves '~'), which
+        # legitimately swallows the next packet of that stream; one junk packet 'x~~~' per direction brings both
+        # streams back in step before the probe is sent.
+        if hostile:
+            ops += [['iab', list(b'x~~~')], ['iba', list(b'x~~~')]] + FLUSH
         events.append(dict(PROBE))
         ops += [['send', len(events) - 1]] + FLUSH
         return {'k': 'proto', 'events': events, 'fws': fws, 'fwr': fwr, 'ops': ops}
@@ -484,19 +557,17 @@ class C19(Prop):
             s = nutils.dump_event(e, c['id'])
             e2, ident = nutils.load_event(s)
             return {'text': s, 'r': [snapshot(e2), ident]}
-        # ---- proto
+        # ---- proto.  dir 'c2s': caller = Node.add -> Client -> Protocol, callee = Node(port) -> Server -> Protocol;
+        #             dir 's2c': caller = the Server side (Server.send / send_to / send_all), callee = the Client side
+        s2c = c.get('dir') == 's2c'
+        fw_caller = {} if c['fws'] is None else {'send_event_firewall': mk_fw(c['fws'])}
+        fw_callee = {} if c['fwr'] is None else {'receive_event_firewall': mk_fw(c['fwr'])}
         mA = Manager()
         nA = Node().register(mA)
-        kw = {}
-        if c['fws'] is not None:
-            kw['send_event_firewall'] = mk_fw(c['fws'])
-        ch = nA.add('peer', 'h', 1, reconnect_delay=0, **kw)
+        ch = nA.add('peer', 'h', 1, reconnect_delay=0, **(fw_callee if s2c else fw_caller))
         mB = Manager()
-        kw = {}
-        if c['fwr'] is not None:
-            kw['receive_event_firewall'] = mk_fw(c['fwr'])
-        nB = Node(port=1, **kw).register(mB)
-        appB = AppB().register(mB)
+        nB = Node(port=1, **(fw_caller if s2c else fw_callee)).register(mB)
+        app = AppB().register(mA if s2c else mB)
         ticks(mA)
         ticks(mB)
         S = 'SOCK'
@@ -505,49 +576,76 @@ class C19(Prop):
         client = nA.get_peer('peer')
         tA = [x for x in client.components if isinstance(x, FakeClientT)][0]
         tB = nB.server.server
-        wab, wba = bytearray(), bytearray()
+        callerB = CallerB(nB.server, S).register(mB) if s2c else None
+        ticks(mB)
+        wab, wba = bytearray(), bytearray()     # caller -> callee, callee -> caller
         calls = []
+        delim = nprotocol.DELIMITER
 
         def pump():
-            for d in tA.out:
+            out_caller, out_callee = (tB.out, tA.out) if s2c else (tA.out, tB.out)
+            for d in out_caller:
                 wab.extend(d)
-            tA.out.clear()
-            for d in tB.out:
+            out_caller.clear()
+            for d in out_callee:
                 wba.extend(d)
-            tB.out.clear()
+            out_callee.clear()
+
+        def to_side_a(d):
+            mA.fire(read(d), ch)
+            ticks(mA)
+
+        def to_side_b(d):
+            mB.fire(read(S, d), nB.channel)
+            ticks(mB)
+
+        to_callee, to_caller = (to_side_a, to_side_b) if s2c else (to_side_b, to_side_a)
+
+        def one_packet(w):
+            i = w.find(delim)
+            return len(w) if i < 0 else i + len(delim)
 
         for op in c['ops']:
             if op[0] == 'send':
                 sp = c['events'][op[1]]
+                mode = sp.get('mode', 'call')
                 ev = mk_event(sp)
-                v = mA.fire(remote(ev, 'peer', channel=sp['chan']))
+                if mode == 'attr':
+                    ev.node_without_result = True
+                if s2c:
+                    if sp['chan'] is not None:
+                        ev.channels = (sp['chan'],)
+                    v = mB.fire(Event.create('go', ev, mode), 'callerb')
+                    ticks(mB)
+                else:
+                    v = mA.fire(remote(ev, 'peer', channel=sp['chan']))
+                    ticks(mA)
                 calls.append((ev, v))
-                ticks(mA)
             elif op[0] == 'iab':
                 wab.extend(bytes(op[1]))
             elif op[0] == 'iba':
                 wba.extend(bytes(op[1]))
-            elif op[0] == 'ab':
-                n = op[1] or len(wab)
+            elif op[0] in ('ab', 'abp'):
+                n = one_packet(wab) if op[0] == 'abp' else (op[1] or len(wab))
                 d, wab[:] = bytes(wab[:n]), wab[n:]
                 if d:
-                    mB.fire(read(S, d), nB.channel)
-                    ticks(mB)
-            elif op[0] == 'ba':
-                n = op[1] or len(wba)
+                    to_callee(d)
+            elif op[0] in ('ba', 'bap'):
+                n = one_packet(wba) if op[0] == 'bap' else (op[1] or len(wba))
                 d, wba[:] = bytes(wba[:n]), wba[n:]
                 if d:
-                    mA.fire(read(d), ch)
-                    ticks(mA)
+                    to_caller(d)
             pump()
         prot_a = [x for x in client.components if isinstance(x, nprotocol.Protocol)][0]
         prot_b = [x for x in nB.server.components if isinstance(x, nprotocol.Protocol)][0]
+        prot_caller, prot_callee = (prot_b, prot_a) if s2c else (prot_a, prot_b)
         res = []
         for ev, v in calls:
             res.append({'fin': isinstance(v._value, Value), 'val': v.value,
                         'err': [getattr(ev, 'errors')] if hasattr(ev, 'errors') else []})
-        return {'log': appB.log, 'calls': res,
-                'bufs': [len(getattr(prot_a, '_Protocol__buffer', b'')), len(getattr(prot_b, '_Protocol__buffer', b''))]}
+        return {'log': app.log, 'calls': res, 'callee_chan': ch if s2c else nB.channel,
+                'bufs': [len(getattr(prot_caller, '_Protocol__buffer', b'')),
+                         len(getattr(prot_callee, '_Protocol__buffer', b''))]}
 
     # ---------------------------------------------------------------- model
     def excl(self):
@@ -575,20 +673,26 @@ class C19(Prop):
         for op in c['ops']:
             if op[0] == 'send':
                 sp = c['events'][op[1]]
-                ops.append('OSend %s' % event_term(sp, [sp['chan']] if sp['chan'] is not None else ['*']))
+                dflt = [] if c.get('dir') == 's2c' else ['*']
+                mode = {'call': 'MCall', 'attr': 'MNoResAttr'}.get(sp.get('mode', 'call'), 'MNoResApi')
+                ops.append('OSend %s %s' % (event_term(sp, [sp['chan']] if sp['chan'] is not None else dflt), mode))
             elif op[0] == 'iab':
                 ops.append('OInjAB %s' % nl(op[1]))
             elif op[0] == 'iba':
                 ops.append('OInjBA %s' % nl(op[1]))
             elif op[0] == 'ab':
                 ops.append('OAB %d%%nat' % op[1])
+            elif op[0] == 'abp':
+                ops.append('OABP')
+            elif op[0] == 'bap':
+                ops.append('OBAP')
             else:
                 ops.append('OBA %d%%nat' % op[1])
         fs = c['fws'] or [[], []]
         fr = c['fwr'] or [[], []]
         return 'obs_proto %s %s %s %s %s %s %s %s %s %s (JStr %s) [%s]' % (
             self.excl(), td, tl, nl(nprotocol.DELIMITER), strs(fs[0]), strs(fs[1]), strs(fr[0]), strs(fr[1]),
-            strs(ECHO), strs(BOOM), nl('node'), '; '.join(ops))
+            strs(ECHO), strs(BOOM), nl('node_client_peer' if c.get('dir') == 's2c' else 'node'), '; '.join(ops))
 
     def obs_for_model(self, c, obs):
         if isinstance(obs, dict) and '__crash__' in obs:
@@ -649,12 +753,15 @@ class C19(Prop):
         sent = [op[1] for op in c['ops'] if op[0] == 'send']
         for pos, i in enumerate(sent):
             sp = c['events'][i]
-            chans = [sp['chan']] if sp['chan'] is not None else ['*']
+            s2c = c.get('dir') == 's2c'
+            # channels the firewalls see / the handler on the peer sees
+            fchans = [sp['chan']] if sp['chan'] is not None else ([] if s2c else ['*'])
+            chans = fchans or [obs.get('callee_chan')]
             marker = sp['args'][-1] if sp['args'] else None
             runs = [s for s in obs['log'] if s['args'] and s['args'][-1] == marker and s['name'] == sp['name']
                     and s['args'] == sp['args']]
             call = obs['calls'][pos]
-            blocked = any(fw is not None and (sp['name'] in fw[0] or any(x in fw[1] for x in chans))
+            blocked = any(fw is not None and (sp['name'] in fw[0] or any(x in fw[1] for x in fchans))
                           for fw in (c['fws'], c['fwr']))
             if blocked:
                 if runs:
@@ -676,6 +783,11 @@ class C19(Prop):
                 if bad:
                     return 'hostile-meta: dispatched event carries peer-set %r' % bad
             if not strict:
+                continue
+            if sp.get('mode', 'call') != 'call':
+                # sent without result: nobody may be resumed, whatever the peer answers and whenever it arrives
+                if call['fin'] or call['val'] is not None or call['err']:
+                    return 'no-result: event %d was sent without result but its sender was resumed with %r' % (i, call['val'])
                 continue
             if sp['name'] in BOOM:
                 if not call['fin'] or not (call['err'] and call['err'][0]):
@@ -701,7 +813,7 @@ class C19(Prop):
 
     def nontrivial(self, c, obs):
         if c['k'] == 'proto':
-            return len(c['events']) >= 3 or any(op[0] in ('iab', 'iba') or (op[0] in ('ab', 'ba') and op[1]) for op in c['ops'])
+            return len(c['events']) >= 3 or any(op[0] in ('iab', 'iba', 'abp', 'bap') or (op[0] in ('ab', 'ba') and op[1]) for op in c['ops'])
         if c['k'] in ('load', 'loadv'):
             return isinstance(obs, dict) and obs.get('r') is not None
         return True
